@@ -627,6 +627,23 @@ func (h *Heap) havocAll() {
 	h.ver = Fresh("hv", SInt)
 }
 
+// havocReal havocs the program heap but keeps ghost state (arrays named G@...).
+func (h *Heap) havocReal() {
+	keep := map[string]*Term{}
+	for g, sort := range ghostSorts {
+		keep["G@"+g] = h.array("G@"+g, sort)
+	}
+	for n := range knownArrays {
+		if strings.HasPrefix(n, "G@") {
+			keep[n] = h.array(n, knownArrays[n])
+		}
+	}
+	h.havocAll()
+	for n, t := range keep {
+		h.arr[n] = t
+	}
+}
+
 // ---- maps
 //
 // A map value is a Ptr. State: Mdom@K : Ptr -> (K -> Bool), Mval@K@path : Ptr -> (K -> leaf),
